@@ -47,6 +47,16 @@ PgSync(m) == <<83>>                                                             
 DerLen(n) == IF n < 128 THEN <<n>> ELSE IF n < 256 THEN <<129, n>> ELSE <<130, n \div 256, n % 256>>
 Tlv(tag, body) == <<tag>> \o DerLen(Len(body)) \o body
 StartTlsOid == <<49, 46, 51, 46, 54, 46, 49, 46, 52, 46, 49, 46, 49, 52, 54, 54, 46, 50, 48, 48, 51, 55>>   \* "1.3.6.1.4.1.1466.20037"
+\* BER (X.690 8.1.3.5; RFC 4511 5.1 allows every definite form): the length in the long form with k length octets
+RECURSIVE BeN(_, _)
+BeN(n, k) == IF k = 0 THEN <<>> ELSE BeN(n \div 256, k - 1) \o <<n % 256>>
+TlvLong(tag, body, k) == <<tag, 128 + k>> \o BeN(Len(body), k) \o body
+\* the same two messages with the length of the outer SEQUENCE, or of the operation, written in the long form
+LdapAlt(kind, m, where, k) ==
+   LET idp == Tlv(2, <<m.message_id>>)
+       op  == IF kind = "ldap_request" THEN Tlv(128, StartTlsOid) ELSE Tlv(10, <<m.result_code>>) \o Tlv(4, <<>>) \o Tlv(4, <<>>)
+       tag == IF kind = "ldap_request" THEN 119 ELSE 120
+   IN  IF where = "outer" THEN TlvLong(48, idp \o Tlv(tag, op), k) ELSE Tlv(48, idp \o TlvLong(tag, op, k))
 LdapStartTlsRequest(m)  == Tlv(48, Tlv(2, <<m.message_id>>) \o Tlv(119, Tlv(128, StartTlsOid)))
 LdapStartTlsResponse(m) == Tlv(48, Tlv(2, <<m.message_id>>) \o Tlv(120, Tlv(10, <<m.result_code>>) \o Tlv(4, <<>>) \o Tlv(4, <<>>)))
 
